@@ -94,8 +94,10 @@ End Partition.
 
 (* Reference definitions (the statement of C13). *)
 Definition cdiv (n size : nat) : nat := (n + size - 1) / size.
+(* piece k of l cut into runs of [size]: l[k*size : min((k+1)*size, len l)] *)
+Definition piece {A} (l : list A) (size k : nat) : list A := firstn size (skipn (k * size) l).
 Definition chunk_ref {A} (l : list A) (size : nat) : list (list A) :=
-  map (fun k => firstn size (skipn (k * size) l)) (seq 0 (cdiv (length l) size)).
+  map (piece l size) (seq 0 (cdiv (length l) size)).
 Definition windowed_ref {A} (l : list A) (size : nat) : list (list A) :=
   if length l <? size then [] else map (fun i => firstn size (skipn i l)) (seq 0 (length l - size + 1)).
 Definition pairs_ref {A} (l : list A) : list (A * A) := combine l (tl l).
